@@ -171,3 +171,48 @@ Proof.
 Qed.
 
 End Accepted.
+
+(* ------------------------------------------------------------------ the full statements aimed at (NOT proved here) *)
+(* C01 for every accepted closed program, the three execution modes, every schedule *)
+Definition safety_statement : Prop :=
+  forall p p', typecheck p = Accept p' -> p_assumed p' = [] ->
+  forall md fuel pick c who e,
+    exec_run fuel pick md (p_types p') (p_funs p') (init_config p') <> RError c who e.
+
+(* C02 for every accepted closed program: asynchronous runs leave only poised providers (and unconsumed
+   results); the synchronous statement is `progress_sync_statement` of proofs/RtProgress.v *)
+Definition progress_statement : Prop :=
+  forall p p', typecheck p = Accept p' -> p_assumed p' = [] ->
+  forall fuel pick c,
+    exec_run fuel pick Async (p_types p') (p_funs p') (init_config p') = RQuiescent c ->
+    (forall self pr, procs c !! self = Some pr ->
+       exists k, action_of Async (p_types p') pr = ARecv k /\ own_chan pr k) /\
+    ((forall k, alive c k -> exists o, obj_in c o /\ k ∈ refs o) -> procs c = ∅).
+
+(* ------------------------------------------------------------------ a concrete accepted program of the fragment (non-vacuity) *)
+Definition example_text : string :=
+"type A = lin 1 -* (1 * 1)
+let srv() : A = <x, y> <- recv self; u : lin 1 <- new close self; print served; send y<x, u>
+prc[a] : lin 1 = s : A <- new srv(); v : lin 1 <- new close self; r : lin 1 * 1 <- new send s<v, self>; <p, q> <- recv r; wait p; wait q; print done; close self".
+
+(* (number of processes left, labels printed, ended in quiescence without error) under the canonical schedule *)
+Definition run_example (md : exec_mode) (pick : nat -> nat -> nat) : option (nat * list string * bool) :=
+  match parse_string example_text with
+  | POk p =>
+    match typecheck p with
+    | Accept p' =>
+      match exec_run 200 pick md (p_types p') (p_funs p') (init_config p') with
+      | RQuiescent c => Some (size (procs c), labels c, true)
+      | RError c _ _ => Some (size (procs c), labels c, false)
+      | ROutOfFuel c => None
+      end
+    | _ => None
+    end
+  | _ => None
+  end.
+
+Definition example_in_fragment : Prop :=
+  match parse_string example_text with
+  | POk p => match typecheck p with Accept p' => in_fragment p' | _ => False end
+  | _ => False
+  end.
